@@ -8,7 +8,7 @@ use core::marker::PhantomData;
 
 #[macro_export]
 macro_rules! plain_field {
-    ($cfg:ident, $ty:ident, $p:expr, $gen:expr, $two_adicity:expr, $root:expr) => {
+    ($cfg:ident, $ty:ident, $w:ty, $p:expr, $gen:expr, $two_adicity:expr, $root:expr) => {
         pub struct $cfg;
         pub type $ty = ark_ff::Fp<$cfg, 1>;
         impl ark_ff::FpConfig<1> for $cfg {
@@ -28,31 +28,31 @@ macro_rules! plain_field {
                 })
             };
             fn add_assign(a: &mut ark_ff::Fp<Self, 1>, b: &ark_ff::Fp<Self, 1>) {
-                (a.0).0[0] = (((a.0).0[0] as u128 + (b.0).0[0] as u128) % ($p as u128)) as u64;
+                (a.0).0[0] = (((a.0).0[0] as $w + (b.0).0[0] as $w) % ($p as $w)) as u64;
             }
             fn sub_assign(a: &mut ark_ff::Fp<Self, 1>, b: &ark_ff::Fp<Self, 1>) {
-                (a.0).0[0] = (((a.0).0[0] as u128 + ($p as u128) - (b.0).0[0] as u128) % ($p as u128)) as u64;
+                (a.0).0[0] = (((a.0).0[0] as $w + ($p as $w) - (b.0).0[0] as $w) % ($p as $w)) as u64;
             }
             fn double_in_place(a: &mut ark_ff::Fp<Self, 1>) {
-                (a.0).0[0] = ((2 * ((a.0).0[0] as u128)) % ($p as u128)) as u64;
+                (a.0).0[0] = ((2 * ((a.0).0[0] as $w)) % ($p as $w)) as u64;
             }
             fn neg_in_place(a: &mut ark_ff::Fp<Self, 1>) {
-                (a.0).0[0] = ((($p as u128) - (a.0).0[0] as u128) % ($p as u128)) as u64;
+                (a.0).0[0] = ((($p as $w) - (a.0).0[0] as $w) % ($p as $w)) as u64;
             }
             fn mul_assign(a: &mut ark_ff::Fp<Self, 1>, b: &ark_ff::Fp<Self, 1>) {
-                (a.0).0[0] = (((a.0).0[0] as u128 * (b.0).0[0] as u128) % ($p as u128)) as u64;
+                (a.0).0[0] = (((a.0).0[0] as $w * (b.0).0[0] as $w) % ($p as $w)) as u64;
             }
             fn sum_of_products<const T: usize>(a: &[ark_ff::Fp<Self, 1>; T], b: &[ark_ff::Fp<Self, 1>; T]) -> ark_ff::Fp<Self, 1> {
-                let mut acc: u128 = 0;
+                let mut acc: $w = 0;
                 let mut i = 0;
                 while i < T {
-                    acc = (acc + ((a[i].0).0[0] as u128 * (b[i].0).0[0] as u128) % ($p as u128)) % ($p as u128);
+                    acc = (acc + ((a[i].0).0[0] as $w * (b[i].0).0[0] as $w) % ($p as $w)) % ($p as $w);
                     i += 1;
                 }
                 ark_ff::Fp(ark_ff::BigInt([acc as u64]), core::marker::PhantomData)
             }
             fn square_in_place(a: &mut ark_ff::Fp<Self, 1>) {
-                (a.0).0[0] = (((a.0).0[0] as u128 * (a.0).0[0] as u128) % ($p as u128)) as u64;
+                (a.0).0[0] = (((a.0).0[0] as $w * (a.0).0[0] as $w) % ($p as $w)) as u64;
             }
             fn inverse(a: &ark_ff::Fp<Self, 1>) -> Option<ark_ff::Fp<Self, 1>> {
                 // tiny moduli only: linear search keeps CBMC's formula small and is obviously right
@@ -62,7 +62,7 @@ macro_rules! plain_field {
                 }
                 let mut y: u64 = 1;
                 while y < $p {
-                    if (x as u128 * y as u128) % ($p as u128) == 1 {
+                    if (x as $w * y as $w) % ($p as $w) == 1 {
                         return Some(ark_ff::Fp(ark_ff::BigInt([y]), core::marker::PhantomData));
                     }
                     y += 1;
@@ -79,11 +79,22 @@ macro_rules! plain_field {
     };
 }
 
-// p, generator, two-adicity, 2^s-th root of unity (generator^((p-1)/2^s))
-plain_field!(P7, F7, 7u64, 3u64, 1, 6u64);
-plain_field!(P13, F13, 13u64, 2u64, 2, 8u64); // 2^3 = 8 has order 4
-plain_field!(P17, F17, 17u64, 3u64, 4, 3u64); // 3 has order 16
-plain_field!(P97, F97, 97u64, 5u64, 5, 28u64); // 5^3 = 125 = 28 (order 32)
-plain_field!(P101, F101, 101u64, 2u64, 2, 10u64); // 2^25 mod 101 = 10 (order 4)
-plain_field!(P61, F61, 2305843009213693951u64, 37u64, 1, 2305843009213693950u64);
-plain_field!(P64, F64, 18446744073709551557u64, 2u64, 2, 18446744073709551556u64);
+// p, generator, two-adicity, 2^s-th root of unity (generator^((p-1)/2^s)); arithmetic width chosen so that p^2 fits
+plain_field!(P7, F7, u32, 7u64, 3u64, 1, 6u64);
+plain_field!(P13, F13, u32, 13u64, 2u64, 2, 8u64); // 2^3 = 8 has order 4
+plain_field!(P17, F17, u32, 17u64, 3u64, 4, 3u64); // 3 has order 16
+plain_field!(P97, F97, u32, 97u64, 5u64, 5, 28u64); // 5^3 = 28 has order 32
+plain_field!(P101, F101, u32, 101u64, 2u64, 2, 10u64); // 2^25 mod 101 = 10 (order 4)
+plain_field!(P251, F251, u32, 251u64, 6u64, 1, 250u64); // 8-bit modulus (bit length multiple of 8)
+plain_field!(P61, F61, u128, 2305843009213693951u64, 37u64, 1, 2305843009213693950u64);
+plain_field!(P64, F64, u128, 18446744073709551557u64, 2u64, 2, 18446744073709551556u64);
+
+/// a symbolic, canonical element of a plain field
+pub fn any_fp<P: ark_ff::FpConfig<1>>() -> ark_ff::Fp<P, 1> {
+    let x: u64 = kani::any();
+    kani::assume(x < P::MODULUS.0[0]);
+    ark_ff::Fp(ark_ff::BigInt([x]), core::marker::PhantomData)
+}
+pub fn raw<P: ark_ff::FpConfig<1>>(x: &ark_ff::Fp<P, 1>) -> u64 {
+    (x.0).0[0]
+}
